@@ -724,7 +724,9 @@ func (g *gen) program(semantic bool) Prog {
 					nt := g.r.Intn(4)
 					ths := g.fields(nt, true, semantic)
 					for k := range ths {
-						ths[k].Def = nil
+						if semantic || !g.r.Chance(g.pArgExt) {
+							ths[k].Def = nil
+						}
 						ths[k].Ty = Ty{Name: "string"}
 						if len(g.excs) > 0 {
 							ths[k].Ty = Ty{Name: g.r.Pick(g.excs)}
